@@ -35,7 +35,7 @@ type Op struct {
 
 func (o Op) String() string {
 	s := fmt.Sprintf("%s(doc=%d", o.Kind, o.Doc)
-	if o.Kind == "Parse" || o.Kind == "Render" || o.Kind == "Walk" {
+	if o.Kind == "Parse" || o.Kind == "Render" || o.Kind == "Walk" || o.Kind == "RenderOther" {
 		s += fmt.Sprintf(",tree=%d", o.Tree)
 	}
 	if o.Stack != "" {
@@ -219,7 +219,9 @@ type Env struct {
 	r    renderer.Renderer
 	docs [][]byte
 	orig [][]byte                     // pristine copies of docs: what the caller asked to convert
-	aux  map[string]goldmark.Markdown // other instances created during the run (AuxConvert)
+	// other instances created during the run (AuxConvert, RenderOther), one table per client so
+	// that concurrent clients never share harness state
+	aux [16]map[string]goldmark.Markdown
 	// one reusable read buffer per client (index = client id), see Op.Reuse
 	scratch [16][]byte
 }
@@ -232,6 +234,25 @@ func newEnv(cfg Config, docs [][]byte) *Env {
 		e.orig[i] = append([]byte{}, d...)
 	}
 	return e
+}
+
+// auxFor: the instance of configuration c that client uses next to the one under test; created
+// at its first use (inside the simulated phase, as a server building per-request instances
+// does) and kept for the rest of the run.
+func (e *Env) auxFor(client int, c *Config) goldmark.Markdown {
+	if client < 0 || client >= len(e.aux) {
+		client = 0
+	}
+	if e.aux[client] == nil {
+		e.aux[client] = map[string]goldmark.Markdown{}
+	}
+	k := c.Key()
+	m := e.aux[client][k]
+	if m == nil {
+		m = c.Build()
+		e.aux[client][k] = m
+	}
+	return m
 }
 
 // pristine returns the bytes document d had when the run started. The reference model is
@@ -249,6 +270,8 @@ type treeHandle struct {
 	doc     int
 	renders int
 	born    int // op index at which it was parsed
+	// renders done by a Renderer of another (renderer-side) configuration
+	otherRenders int
 }
 
 type OpResult struct {
@@ -325,16 +348,7 @@ func execOp(e *Env, trees map[int]*treeHandle, client, idx int, op Op, y *yielde
 	case "AuxConvert":
 		// another instance, of another configuration, living next to the one under test: it is
 		// created at its first use and kept for the rest of the run
-		if e.aux == nil {
-			e.aux = map[string]goldmark.Markdown{}
-		}
-		k := op.Aux.Key()
-		m := e.aux[k]
-		if m == nil {
-			m = op.Aux.Build()
-			e.aux[k] = m
-		}
-		res.Err = m.Convert(src, w, parseOpts(op, y)...)
+		res.Err = e.auxFor(client, op.Aux).Convert(src, w, parseOpts(op, y)...)
 	case "Parse", "ParseOnly":
 		n := e.p.Parse(mkReader(op, src, y), parseOpts(op, y)...)
 		res.Tree = &treeHandle{node: n, doc: op.Doc, born: idx}
@@ -355,6 +369,20 @@ func execOp(e *Env, trees map[int]*treeHandle, client, idx int, op Op, y *yielde
 		res.Tree = t
 		res.Err = e.r.Render(w, e.docs[t.doc], t.node)
 		t.renders++
+	case "RenderOther":
+		// the tree is rendered by the Renderer of ANOTHER instance whose configuration differs
+		// from ours on the renderer side only: if rendering does not alter the tree, the result is
+		// what that other configuration gives for the source
+		t := trees[op.Tree]
+		if t == nil || op.Aux == nil || parserSide(*op.Aux) != parserSide(e.cfg) {
+			// (a shrinking candidate that simplified only one of the two configurations)
+			res.Skipped = true
+			return
+		}
+		res.Tree = t
+		res.Err = e.auxFor(client, op.Aux).Renderer().Render(w, e.docs[t.doc], t.node)
+		t.renders++
+		t.otherRenders++
 	case "Walk":
 		t := trees[op.Tree]
 		if t == nil {
